@@ -12,6 +12,15 @@ claimed = {
  "C03": ("proof", "Theorems (Coq, unbounded): the complete conflict table of transform on operations valid in a common state (an operation is dropped iff the other has the same effect or beats it by the documented rules); list-level kept-or-documented; rebase only drops; symmetry of transform and of the whole transformation grid; order independence for two replicas with arbitrary concurrent valid lists; causal override regardless of timestamps. The three-replica statement is kept visible but is not proved; it is exercised exhaustively per generated scenario (all six orders). Tied to /repo by executing every permutation of the sync order of generated conflict scenarios on real replicas and in the model, with a direct oracle for order independence and documented winners.",
          "As C01. order_independent_3 is tested, not proved. Strings are interned order-preservingly so the (timestamp, value) tie-break is the byte-wise string order the code uses.",
          "Coq proof (conflict table, grid symmetry) + all-sync-orders correspondence", "7 C03"),
+ "C05": ("proof", "Theorems (Coq, unbounded): batch application through the write cache equals one-at-a-time application of the documented rules for every batch (valid or not), every prior state and every order of the final flush, and touches nothing but the tasks; a commit appends the batch in order to the unsynchronised operations, keeps the base version, only extends the working set; tasks = base state + unsynchronised operations is preserved. Tied to /repo by comparing tasks, unsynchronised operations (with old values) and working set after every commit of generated batches on both storages, plus a one-at-a-time oracle.",
+         "As C01. Atomicity of the storage transaction itself (all-or-nothing on abandon) is the storage contract (C06 for SQLite); the model's commit is a pure function of the prior state.",
+         "Coq proof (cache/view invariant) + commit correspondence on in-memory and SQLite", "7 C05"),
+ "C07": ("proof", "Theorems (Coq, unbounded): reversing a faithful operation restores the tasks exactly (a deleted task returns with all properties, whatever the re-insertion order); undo_spec for any faithful tail of the unsynchronised operations (tasks restored, exactly those operations removed, base and working set untouched, success iff a change was undone); mismatching/stale/empty lists are refused; after sync nothing is undoable. Tied to /repo by generated histories with undo points, stale and mutilated lists, syncs and reopen on both storages.",
+         "As C01. 'Faithful' (valid where applied, true old values) is what Task/TaskData record; raw operations with false old values are outside the statement.",
+         "Coq proof (inverse operations, log tail) + undo correspondence", "7 C07"),
+ "C15": ("proof", "Theorems (Coq, unbounded) about the working set a rebuild produces: exactly the pending/recurring tasks, position 0 empty, remaining tasks keep their numbers without renumbering, newcomers after the retained part, 1..n in old relative order with renumbering; commits only append. That the write-back through set_working_set_item/add_to_working_set produces that list is proved by complete enumeration of a small scope (1836 cases, kernel computation) and otherwise checked by correspondence on generated histories on both storages with a direct oracle for every clause.",
+         "As C01. The write-back equivalence beyond the enumerated scope rests on the correspondence check.",
+         "Coq proof (list lemmas) + small-scope enumeration + working-set correspondence", "7 C15"),
 }
 checks=[]
 for pid,(cat,text,note,tech,ref) in claimed.items():
